@@ -1,12 +1,13 @@
 import FV.Drv.Common
 import FV.Model.Force
 import FV.Model.Spectral
+import FV.Model.Disc
 /-
   op table for the placement models: force-directed relocation (C13) and spectral placement (C14).
 
   Mode `F` runs the models at `Float` with `Float.sqrt` / `Float.pow` (libm, as CPython does); the opaque
-  disc-overlap parameter of the force model is instantiated by `discF`, a transcription of the (repaired)
-  `circle_circle_intersection_area`; it is compared with the Python to 1e-9, never judged here (C17 owns it).  Mode `Q` (exact rationals) is available for the ops that need no
+  disc-overlap parameter of the force model is instantiated by `discF` = the C17 model `FV.Disc.area` at `Float`
+  (so the cost is the composition of the two models); it is never judged here (C17 owns it).  Mode `Q` (exact rationals) is available for the ops that need no
   square root.
 -/
 namespace FV.Drv
@@ -19,28 +20,13 @@ def opsF : Ops Float where
   pi := 3.141592653589793
   ltInf := fun x => x < (1.0 / 0.0)
 
-/-- `circle_circle_intersection_area` at `Float` (driver-local instantiation of the opaque parameter; transcription
-    of the repaired function: lengths relative to the larger radius, `acos` arguments and result clamped). -/
+/-- `circle_circle_intersection_area` at `Float`: the C17 model itself (`FV/Model/Disc.lean`, executed with the C
+    library and the transcription of CPython's `math.hypot`), so that `total_intersection_area` / the cost are the
+    composition of the two models; an exception of the disc model (none for finite radii ≥ 0) shows as NaN. -/
 def discF (c1 : Float × Float) (r1 : Float) (c2 : Float × Float) (r2 : Float) : Float :=
-  let dx := c1.1 + -c2.1
-  let dy := c1.2 + -c2.2
-  let d := Float.pow (Float.pow dx 2.0 + Float.pow dy 2.0) 0.5
-  if d > r1 + r2 then 0.0 else
-  let small := 3.141592653589793 * Float.pow (if r2 < r1 then r2 else r1) 2.0
-  if d ≤ Float.abs (r1 - r2) then small else
-  let s := if r2 > r1 then r2 else r1
-  let a := r1 / s
-  let b := r2 / s
-  let e := d / s
-  let den1 := 2.0 * a * e
-  let den2 := 2.0 * b * e
-  if den1 == 0.0 || den2 == 0.0 then small else
-  let cl := fun (x : Float) => let m := if x < 1.0 then x else 1.0; if m > -1.0 then m else -1.0
-  let al := Float.acos (cl ((Float.pow a 2.0 + Float.pow e 2.0 - Float.pow b 2.0) / den1))
-  let be := Float.acos (cl ((Float.pow b 2.0 + Float.pow e 2.0 - Float.pow a 2.0) / den2))
-  let v := (Float.pow a 2.0 * al + Float.pow b 2.0 * be - e * a * Float.sin al) * s * s
-  let v0 := if v > 0.0 then v else 0.0
-  if v0 < small then v0 else small
+  match FV.Disc.area FV.Disc.floatFns c1.1 c1.2 r1 c2.1 c2.2 r2 with
+  | .ok v => v
+  | .error _ => 0.0 / 0.0
 
 variable {α : Type} [Add α] [Sub α] [Mul α] [Div α] [Neg α] [LT α] [LE α]
   [DecidableLT α] [DecidableLE α] [NatCast α] [ScalarIO α]
@@ -86,6 +72,8 @@ def showVec (xs : List α) : String := " ".intercalate (xs.map sc)
 def showPts (ps : List (α × α)) : String := " ".intercalate (ps.map fun p => s!"{sc p.1} {sc p.2}")
 def showCentres (inst : Inst α Unit) : String :=
   " ".intercalate (inst.mods.map fun m => match m.center with | some c => s!"{sc c.1} {sc c.2}" | none => "N N")
+def showOptPts (ps : List (Option (α × α))) : String :=
+  " ".intercalate (ps.map fun p => match p with | some c => s!"{sc c.1} {sc c.2}" | none => "N N")
 def showExc {β : Type} (f : β → String) : Except Err β → String
   | .ok x => f x
   | .error e => e.toStr
@@ -140,6 +128,19 @@ def placeOpNum (o : Ops α) (disc : Pt α → α → Pt α → α → α) (op : 
       | .ok none, .ok out => s!"none none {showCentres out}"
       | .error e, _ => e.toStr
       | _, .error e => e.toStr
+  | "layoutvis" => (runP (do let kp ← pSc (α := α); let it ← pNat; let vis ← pBool; let i ← pInst; pure (kp, it, vis, i)) args).map
+      fun (kp, it, vis, i) => showF (fun (r : Inst α Unit × List (List (Option (α × α)))) =>
+        s!"{r.2.length} | {showCentres r.1}" ++ String.join (r.2.map fun fr => " | " ++ showOptPts fr)) (frLayoutVis o id i kp it vis)
+  | "forcevis" => (runP (do let it ← pNat; let vis ← pBool; let i ← pInst (α := α); pure (it, vis, i)) args).map
+      fun (it, vis, i) => showF (fun (r : Inst α Unit × List (List (Option (α × α)))) =>
+        s!"{r.2.length} | {showCentres r.1}" ++ String.join (r.2.map fun fr => " | " ++ showOptPts fr)) (forceAlgorithmVis o disc id i it vis)
+  | "besttrial" => (runP (pVec (α := α)) args).map fun wls =>
+      -- the selection loop of `spectral_layout` on a list of wirelengths (trial `i` is tagged by `iters = [i]`)
+      let rs : List (DieResult α) := (List.range wls.length).map fun i =>
+        { xs := [], ys := [], wl := vat wls i, iters := [i], draws := [], preX := [], preY := [] }
+      match rs.foldl (betterTrial o) none with
+      | some b => " ".intercalate (b.iters.map toString)
+      | none => "err:AssertionError"
   | "sld" => (runP (do
         let a ← pAdj (α := α); let m ← pVec; let W ← pSc; let H ← pSc; let i0 ← pVec; let i1 ← pVec
         let f ← pBools; let dr ← pVec; let mi ← pNat; pure (a, m, W, H, i0, i1, f, dr, mi)) args).map
